@@ -14,6 +14,8 @@ TIMED = -2
 async def verif_request(es, params):
     resp = await es.perform_request(method="GET", path=params["path"])
     res = {"weight": 1, "unit": "ops", "vid": resp["vid"]}
+    if resp.get("unsuccessful"):
+        res.update({"success": False, "error-type": "verif", "error-description": "verif: request reported as failed"})
     if resp.get("deps"):
         # a composite-like request: one dependent sub-request timing per entry (what runner.Composite reports)
         res["dependent_timing"] = [
@@ -33,7 +35,7 @@ class TracedRace:
         self.fault_delay = fault_delay
         self.fault_kind = fault
         self.req_variant = req_variant
-        if fault == "req" and req_variant == "api_error":
+        if fault == "req" and req_variant in ("api_error", "unsuccessful"):
             on_error = "abort"
         self.world = racesim.RaceWorld(scn, seed=seed, test_mode=test_mode, queue_size=queue_size, pp_interval=pp_interval, offsets=offsets, on_error=on_error, downsample=downsample, full=True)
         self.w = self.world
@@ -391,6 +393,12 @@ class TracedRace:
         elif dec[0] == "fault":
             kind = dec[1]
             if kind == "req":
+                if self.req_variant == "unsuccessful":
+                    # should the implementation go on after this request its sample must still be attributable
+                    c = dec[2]
+                    req = w.pending[c]
+                    tid = int(req["path"].rsplit("/", 1)[1])
+                    self.vid_info[req["n"]] = (c, self.col_of(c, tid), self.completed.get((c, tid), 0) + 1)
                 w.fail_request(dec[2], self.req_variant)
             elif kind == "param":
                 c = dec[2]
